@@ -378,6 +378,11 @@ def local_image_listing(ctx: Ctx, rule: str) -> None:
 
 def run(ctx: Ctx) -> None:
     ctx.call(local_image_listing, "6")
+    from .c12 import iteration_isolation, iteration_order
+
+    # the vm-level parameters the backends combine over: all images of the vm, components first
+    ctx.call(iteration_isolation, "7w")
+    ctx.call(iteration_order, "7")
     ctx.call(accumulator_rules, "1", "2")
     ctx.call(vt_result, "2r")
     ctx.call(ramfile_guard, "3")
